@@ -66,6 +66,7 @@ static std::string ordered(M* m, const Toks& t, const K&, const V&)
 	if (op == "set" && n == 5) { parse(t[3], k); parse(t[4], v); a.set(k, v); return "ok " + str(a.length()); }
 	if (op == "asg" && n == 5) { parse(t[3], k); parse(t[4], v); a[k] = v; return "ok " + str(a.length()); }
 	if (op == "idx" && n == 4) { parse(t[3], k); V& r = a[k]; return show(r) + " " + str(a.length()); }
+	if (op == "asgfrom" && n == 5) { K j; parse(t[3], k); parse(t[4], j); a[k] = a[j]; return "ok " + str(a.length()); }
 	if (op == "cidx" && n == 4) { parse(t[3], k); const M& c = a; return show(c[k]) + " " + str(a.length()); }
 	if (op == "find" && n == 4) { parse(t[3], k); const M& c = a; const V* p = c.find(k); V* q = a.find(k);
 		if ((p == 0) != (q == 0)) return "err find-const-mismatch";
@@ -112,6 +113,7 @@ static std::string hashed(M* m, const Toks& t, const K&, const V&)
 	if (op == "set" && n == 5) { parse(t[3], k); parse(t[4], v); a.set(k, v); return "ok " + str(a.length()); }
 	if (op == "asg" && n == 5) { parse(t[3], k); parse(t[4], v); a[k] = v; return "ok " + str(a.length()); }
 	if (op == "idx" && n == 4) { parse(t[3], k); V& r = a[k]; return show(r) + " " + str(a.length()); }
+	if (op == "asgfrom" && n == 5) { K j; parse(t[3], k); parse(t[4], j); a[k] = a[j]; return "ok " + str(a.length()); }
 	if (op == "cidx" && n == 4) { parse(t[3], k); const M& c = a; return show(c[k]) + " " + str(a.length()); }
 	if (op == "find" && n == 4) { parse(t[3], k); const M& c = a; const V* p = c.find(k); return p ? "some " + show(*p) : "none"; }
 	if (op == "has" && n == 4) { parse(t[3], k); return a.has(k) ? "1" : "0"; }
